@@ -449,6 +449,120 @@ M("c05-error-value-stringified", "C05", "src/ckl/nodes.py",
   "error raises the string form of its value")
 
 
+# ---- C03
+M("c03-dynamic-scope", "C03", "src/ckl/functions.py",
+  '''    def execute(self, args, environment, pos):
+        env = self.lexicalEnv.newEnv()
+        for i in range(len(self.argNames)):''',
+  '''    def execute(self, args, environment, pos):
+        env = environment.newEnv()
+        for i in range(len(self.argNames)):''',
+  "function frames are children of the caller's environment")
+M("c03-assign-local", "C03", "src/ckl/functions.py",
+  '''        if name in self.map:
+            self.map[name] = value
+        elif self.parent:
+            self.parent.set(name, value)''',
+  '''        if name in self.map or (self.parent and self.parent.parent
+                                and self.parent.parent.parent):
+            self.map[name] = value
+        elif self.parent:
+            self.parent.set(name, value)''',
+  "assignment from a nested function frame creates a local binding")
+M("c03-defaults-at-definition", "C03", "src/ckl/nodes.py",
+  '''        result = ckl.functions.FuncLambda(environment)
+        for i in range(len(self.args)):
+            result.addArg(self.args[i], self.defs[i])''',
+  '''        result = ckl.functions.FuncLambda(environment)
+        for i in range(len(self.args)):
+            d = self.defs[i]
+            if d is not None:
+                try:
+                    d = NodeLiteral(d.evaluate(environment), self.pos)
+                except CklRuntimeError:
+                    d = self.defs[i]
+            result.addArg(self.args[i], d)''',
+  "defaults are evaluated when the function is created")
+M("c03-positionals-first", "C03", "src/ckl/values.py",
+  '''        rest = ValueList()
+        for i in range(len(values)):
+            if names[i]:
+                if names[i] not in self.argNames:
+                    raise CklRuntimeError(
+                        ValueString("ERROR"),
+                        "Argument " + names[i] + " is unknown",
+                        self.pos,
+                    )
+                self.args[names[i]] = values[i]
+
+        inKeywords = False''', '''        rest = ValueList()
+
+        inKeywords = False''', "named arguments are not bound before positional ones")
+M("c03-pipe-appends", "C03", "src/ckl/parser.py",
+  '''        call = NodeFuncall(fn, lexer.getPos())
+        call.addArg(None, node)
+        lexer.match("(", "interpunction")
+        while not lexer.peekn(1, ")", "interpunction"):
+            if lexer.peek().type == "identifier" and lexer.peekn(
+                2, "=", "operator"
+            ):
+                name = lexer.matchIdentifier()
+                lexer.match("=", "operator")
+                call.addArg(name, parse_expression(lexer))
+            else:
+                call.addArg(None, parse_expression(lexer))
+            if not lexer.peekn(1, ")", "interpunction"):
+                lexer.match(",", "interpunction")
+        lexer.eat(1)
+        node = call''', '''        call = NodeFuncall(fn, lexer.getPos())
+        lexer.match("(", "interpunction")
+        seen_named = False
+        while not lexer.peekn(1, ")", "interpunction"):
+            if lexer.peek().type == "identifier" and lexer.peekn(
+                2, "=", "operator"
+            ):
+                if not seen_named:
+                    call.addArg(None, node)
+                    seen_named = True
+                name = lexer.matchIdentifier()
+                lexer.match("=", "operator")
+                call.addArg(name, parse_expression(lexer))
+            else:
+                call.addArg(None, parse_expression(lexer))
+            if not lexer.peekn(1, ")", "interpunction"):
+                lexer.match(",", "interpunction")
+        if not seen_named:
+            call.addArg(None, node)
+        lexer.eat(1)
+        node = call''', "pipeline inserts the piped value after the positional arguments")
+M("c03-method-first-object-only", "C03", "src/ckl/nodes.py",
+  '''            obj = obj_
+            exists = obj.hasItem(self.member)
+            while not exists and obj.hasItem("_proto_"):
+                obj = obj.getItem("_proto_")
+                exists = obj.hasItem(self.member)
+            if not exists:
+                raise CklRuntimeError(
+                    ValueString("ERROR"),
+                    f"Member {self.member} not found",''',
+  '''            obj = obj_
+            exists = obj.hasItem(self.member)
+            if not exists and obj.hasItem("_proto_"):
+                obj = obj.getItem("_proto_")
+                exists = obj.hasItem(self.member)
+            if not exists:
+                raise CklRuntimeError(
+                    ValueString("ERROR"),
+                    f"Member {self.member} not found",''',
+  "method lookup follows the prototype chain only one step")
+M("c03-rest-keeps-last-only", "C03", "src/ckl/values.py",
+  '''                    rest.addItem(values[i])
+                elif argName not in self.args:''',
+  '''                    rest.value[:] = [values[i]]
+                elif argName not in self.args:''',
+  "rest parameter keeps only the last surplus argument")
+
+
 def run(cmd, cwd, env=None, timeout=3600):
     t0 = time.time()
     try:
